@@ -2657,6 +2657,38 @@ Proof.
   - apply jj_fr. minv.
 Qed.
 
+(* F34 repair: a limit fault whose handler is IGNORE leaves the transaction as it is (one callback), and the procedure
+   that declared it carries on *)
+Lemma bb_declare_fault_ignored : forall H cond s, Bq lateF H s -> fault_ignored (s_cfg s) cond = true ->
+  Bq lateF H (fst (declare_fault_s cond s)).
+Proof.
+  intros H cond s Hs Hi. unfold declare_fault_s. rewrite b_gets, b_gq, b_gq.
+  unfold fault_ignored in Hi.
+  destruct (q_tid (s_p s)) as [[x y]|]; [|exact Hs].
+  destruct (get_fault_handler (l_faults (s_cfg s)) cond) as [h|]; [|discriminate Hi].
+  apply Z.eqb_eq in Hi. subst h.
+  change (FH_IGNORE =? FH_CANCEL) with false. change (FH_IGNORE =? FH_ABANDON) with false. cbv iota.
+  rewrite b_ret. change (negb true) with false. cbv iota.
+  generalize (EvFault FH_IGNORE x y cond (q_progress (s_p s))). intro ev.
+  revert s Hs. change (pres (Bq lateF H) (Bq lateF H) (semit ev)).
+  bb.
+Qed.
+
+Lemma bj_declare_fault_then : forall H cond (k : SM unit), pres (Bq lateF H) (J H) k ->
+  pres (Bq lateF H) (J H)
+    (declare_fault_s cond ;;; l <- gets s_cfg ;; if fault_ignored l cond then k else ret tt)%monad.
+Proof.
+  intros H cond k Hk s Hs.
+  pose proof (bj_declare_fault H cond s Hs) as HJ.
+  pose proof (bb_declare_fault_ignored H cond s Hs) as HI.
+  unfold bind at 1. destruct (declare_fault_s cond s) as [s1 [u|e]]; cbn [fst] in *; [|exact HJ].
+  rewrite b_gets.
+  assert (Ec : s_cfg s1 = s_cfg s).
+  { destruct Hs as [((Ec & _) & _) _]. rewrite Ec. destruct HJ as [[((Ec1 & _) & _) _]|((Ec1 & _) & _)]; exact Ec1. }
+  rewrite Ec. destruct (fault_ignored (s_cfg s) cond); [|exact HJ].
+  apply Hk, HI. reflexivity.
+Qed.
+
 Lemma bj_positive_ack : forall H, pres (Bq lateF H) (J H) handle_positive_ack_procedures_s.
 Proof.
   intros H. unfold handle_positive_ack_procedures_s.
@@ -2666,11 +2698,16 @@ Proof.
   apply (pres_bind _ (Bq lateF H) _); [bb | apply lateF_J | intro nw].
   destruct (negb (timed_out nw tm)); [bj|].
   apply (pres_bind _ (Bq lateF H) _); [bb | apply lateF_J | intro cnt].
-  destruct (r_ack_limit r <=? cnt + 1); [apply bj_declare_fault|].
-  apply (pres_post _ (Bq lateF H)); [apply lateF_J|].
-  apply (pres_bind _ (Bq lateF H) _); [bb | trivial | intros _].
-  intros s Hs. rewrite b_gq.
-  apply bb_eof_last; [exact lateF_pr | exact Hs | exact (lateF_pr _ _ _ (proj2 Hs))].
+  cbv zeta.
+  assert (Hre : pres (Bq lateF H) (J H)
+    (setq (fun q => q <| q_ack_timer := Some (nw, snd tm) |> <| q_ack_counter := cnt + 1 |>) ;;;
+     pr <- gq q_progress ;; ck <- checksum_calculation pr ;; prepare_eof_pdu ck)%monad).
+  { apply (pres_post _ (Bq lateF H)); [apply lateF_J|].
+    apply (pres_bind _ (Bq lateF H) _); [bb | trivial | intros _].
+    intros s Hs. rewrite b_gq.
+    apply bb_eof_last; [exact lateF_pr | exact Hs | exact (lateF_pr _ _ _ (proj2 Hs))]. }
+  destruct (r_ack_limit r <=? cnt + 1); [|exact Hre].
+  apply bj_declare_fault_then. exact Hre.
 Qed.
 
 Lemma pres_bind_ret {A C} (P Q : src -> Prop) (a : A) (k : A -> SM C) : pres P Q (k a) -> pres P Q (bind (ret a) k).
@@ -2708,13 +2745,21 @@ Qed.
 
 Lemma bj_check_timer : forall H, pres (Bq lateF H) (J H)
   (t <- gq q_check_timer ;; n0 <- snow ;;
-   match t with Some tm => when (timed_out n0 tm) (declare_fault_s C_CHECK_LIMIT) | None => ret tt end)%monad.
+   match t with
+   | Some tm =>
+       when (timed_out n0 tm)
+         (declare_fault_s C_CHECK_LIMIT ;;;
+          l <- gets s_cfg ;;
+          when (fault_ignored l C_CHECK_LIMIT) (setq (fun q => q <| q_check_timer := Some (n0, snd tm) |>)))
+   | None => ret tt
+   end)%monad.
 Proof.
   intros H.
   apply (pres_bind _ (Bq lateF H) _); [bb | apply lateF_J | intro t].
   apply (pres_bind _ (Bq lateF H) _); [bb | apply lateF_J | intro nw].
   destruct t as [tm|]; [|bj]. destruct (timed_out nw tm); [rewrite when_true | rewrite when_false; bj].
-  apply bj_declare_fault.
+  apply (bj_declare_fault_then H C_CHECK_LIMIT (setq (fun q => q <| q_check_timer := Some (nw, snd tm) |>))).
+  apply (pres_post _ (Bq lateF H)); [apply lateF_J | bb].
 Qed.
 
 Lemma bj_finish_rest : forall H pkt, pres (Bq lateF H) (J H)
@@ -2730,7 +2775,11 @@ Lemma bj_finish_rest : forall H pkt, pres (Bq lateF H) (J H)
    | _ =>
       t <- gq q_check_timer ;; n <- snow ;;
       match t with
-      | Some tm => when (timed_out n tm) (declare_fault_s C_CHECK_LIMIT)
+      | Some tm =>
+          when (timed_out n tm)
+            (declare_fault_s C_CHECK_LIMIT ;;;
+             l <- gets s_cfg ;;
+             when (fault_ignored l C_CHECK_LIMIT) (setq (fun q => q <| q_check_timer := Some (n, snd tm) |>)))
       | None => ret tt
       end
    end)%monad.
@@ -2761,7 +2810,11 @@ Proof.
        | _ =>
           t <- gq q_check_timer ;; n <- snow ;;
           match t with
-          | Some tm => when (timed_out n tm) (declare_fault_s C_CHECK_LIMIT)
+          | Some tm =>
+              when (timed_out n tm)
+                (declare_fault_s C_CHECK_LIMIT ;;;
+                 l <- gets s_cfg ;;
+                 when (fault_ignored l C_CHECK_LIMIT) (setq (fun q => q <| q_check_timer := Some (n, snd tm) |>)))
           | None => ret tt
           end
        end)%monad)).
